@@ -130,6 +130,21 @@ class Ctx:
                 fn = f.f_code.co_filename
                 if "/pynetdicom/" in fn and not fn.endswith("events.py"):
                     d["origin"] = f.f_code.co_name
+                    if d["origin"] == "_abort_blocking":
+                        # who asked for the abort: the user's script/handler (plain) or pynetdicom itself (suffix)
+                        g = f.f_back
+                        while g is not None and g.f_code.co_name in ("abort", "_abort_nonblocking", "_abort_blocking"):
+                            g = g.f_back
+                        if g is not None and "/pynetdicom/" in g.f_code.co_filename:
+                            d["origin"] = "_abort_blocking:" + g.f_code.co_name
+                            if g.f_code.co_name == "_handle_no_response":
+                                # "DIMSE timeout" declared before the DIMSE timeout has run since the last DIMSE
+                                # message this association sent or received?
+                                last = [h["t"] for h in sim.hist if h["kind"] == "evt" and h.get("assoc") == lab
+                                        and h["evt"] in ("EVT_DIMSE_SENT", "EVT_DIMSE_RECV")]
+                                to = event.assoc.dimse_timeout
+                                if last and to is not None and sim.now - last[-1] < to * 0.999:
+                                    d["origin"] += "!early"
                     break
                 f = f.f_back
         sim.record("evt", **d)
